@@ -723,6 +723,9 @@ func init() {
 		Check: func(ci interface{}, x *Ctx) {
 			c := ci.(*C02Case)
 			text, _ := dsl.PrintRules([]*dsl.Rule{c.Rule}, c.Lay)
+			if tooCostly(x, text) {
+				return
+			}
 			// dry run of the reference on a third copy of the world: programs that exceed the
 			// step or string-size budget (e.g. a string doubled in nested loops) are skipped
 			// before gengine is asked to run them
